@@ -35,7 +35,7 @@ func init() {
 		Real:       vestReal,
 		Stub:       vestStub,
 		Assumes:    []string{"family-sum tolerance = 2 units per family member plus the SDK's own 18-digit schedule precision (original vesting * 2e-18 per member), which exceeds one unit only above 1e18", "fees are zero"},
-		FaultKinds: []string{"F-clock (block times at exact fractions of the vesting span, at start/end, 1 s around)"},
+		FaultKinds: []string{"F-clock (block times at exact fractions of the vesting span, at start/end, 1 s around)", "F-crash (every fifth run: death before / inside Commit, restart, re-execution)", "F-simulate + F-rollback (every fifth run: a quarter of the transactions are only handed to the Simulate service, or are a governance execution [parameter update, failing message] that x/gov drops as a whole; nothing of either may stick)"},
 	})
 }
 
@@ -103,6 +103,12 @@ func c07Build(seed uint64) (*kernel.Trace, *genSource, *c07World) {
 	tr := &kernel.Trace{Profile: "C07", Seed: seed, Spec: *spec}
 	rr := r.Fork(2)
 	src := &genSource{rng: rr, nBlocks: rr.Range(6, 20), MaxTxs: 2, PTx: 0.8}
+	if seed%5 == 2 {
+		src.CrashP = 0.15
+	}
+	if seed%5 == 3 {
+		simOverlay(src, spec)
+	}
 	src.Cadence = func(run *kernel.Run, rng *kernel.Rng) int64 {
 		now := run.Chain.Now.Unix()
 		// aim at the next k/n of some member's span after now
@@ -331,7 +337,7 @@ func (m *c07Monitor) AfterTx(r *kernel.Run, tx *kernel.Tx, msgs []sdk.Msg, res *
 	_, toExisted := m.pre.accs[to]
 	if !res.OK {
 		// any amount up to the locked, undelegated coins can be split into a fresh address
-		wellFormed := errTo == nil && !toExisted && senderIsCVA && !want.IsZero() && want.IsAllLTE(lockedBefore) && !r.Chain.App.BankKeeper.BlockedAddr(toAddr) && res.BuildErr == ""
+		wellFormed := errTo == nil && !toExisted && senderIsCVA && !want.IsZero() && want.IsAllLTE(lockedBefore) && !r.Chain.App.BankKeeper.BlockedAddr(toAddr) && res.BuildErr == "" && !res.Simulated
 		if sp, ok := msg.(*vtypes.MsgSplitVesting); ok && sdk.Coins(sp.Amount).Validate() != nil {
 			wellFormed = false
 		}
